@@ -1486,6 +1486,9 @@ class Interp:
                 if m:
                     self.call_value(VFunc(m["v"], base), [idx], {}, fr, site)
                     return
+        if isinstance(base, VOpaque) and self.E.contract_of(base.tag + ".__delitem__"):
+            self.call_value(VFunc(base.tag + ".__delitem__", base), [idx], {}, fr, site)
+            return
         raise Unsupported("del index on %s" % self.type_name(base))
 
     def del_slice(self, base, lo, hi, fr):
